@@ -49,6 +49,7 @@ func newListTarget(ninit int) *listTarget {
 		// the initial content is pushed by one scheduled thread so that the node
 		// pointers are learnt from the link CASes
 		s := sched.New()
+		defer s.Close()
 		s.Go(func(*sched.Thread) {
 			for v := 1; v <= ninit; v++ {
 				t.l.Push(v)
@@ -58,7 +59,6 @@ func newListTarget(ninit int) *listTarget {
 			op, _ := s.Step(0)
 			t.FmtOp(op)
 		}
-		s.Close()
 	}
 	return t
 }
